@@ -266,7 +266,7 @@ def run_word(rec, kind, word, obj, sig):
         if isinstance(fr, Raised):
             rec.fail("fresh_construction_failed", dict(sig, op=op, type=fr.type), msg=fr.msg)
             return kinds_applied
-        a = observe.canonical(observe.observe(obj))
+        a = observe.canonical(observe.observe(obj, isolated=True))
         b = observe.canonical(observe.observe(fr))
         observe.compare(rec, a, b, _scale_of(obj), observe.is3d(obj), dict(sig, after=op), "vs_fresh_", rtol=1e-9,
                         skip=("gsd_shape_spec", "repr", "polygon", "polyhedron"))
